@@ -73,7 +73,8 @@ def fintlist(alist):
         # we have a string (comma-separated integers)
         alist = alist.strip().strip("[] ").split(",")
     for it in alist:
-        if it:
+        # skip empty entries (e.g. from "[]" or "1,,2"), but keep zeros
+        if it or it == 0:
             outlist.append(fint(it))
     return outlist
 
